@@ -205,6 +205,34 @@ Section Reader.
         end
     end.
 
+  (** the three blocks of the body of [elf_read_page]'s loop, each acting on
+      (bytes filled so far, their number, address of the next byte) *)
+
+  (** if (loadaddr > addr): zero-fill up to the segment *)
+  Definition stage_gap (loadaddr : N) (t : bytes * N * N) : bytes * N * N :=
+    let '(acc, done, addr) := t in
+    if addr <? loadaddr
+    then (acc ++ zeros (wsub loadaddr addr), done + wsub loadaddr addr, loadaddr)
+    else t.
+
+  (** if (loadaddr + pls->filesz > addr): the file-backed part *)
+  Definition stage_file (pgsz : N) (pls : load_segment) (loadaddr : N) (t : bytes * N * N)
+    : bytes * N * N :=
+    let '(acc, done, addr) := t in
+    if addr <? wadd loadaddr (ls_filesz pls) then
+      let size := N.min (pgsz - done) (wsub (wadd loadaddr (ls_filesz pls)) addr) in
+      (acc ++ rd 0 (wsub (wadd (ls_off pls) addr) loadaddr) size, done + size, wadd addr size)
+    else t.
+
+  (** if (p < endp): the rest of the segment's memory range reads as zeroes *)
+  Definition stage_mem (pgsz : N) (pls : load_segment) (loadaddr : N) (t : bytes * N * N)
+    : bytes * N * N :=
+    let '(acc, done, addr) := t in
+    if done <? pgsz then
+      let size := N.min (pgsz - done) (wsub (wadd loadaddr (ls_memsz pls)) addr) in
+      (acc ++ zeros size, done + size, wadd addr size)
+    else t.
+
   (** the loop of [elf_read_page]: [done] bytes of the page are filled (in
       [acc]), [addr] is the address of the next byte *)
   Fixpoint read_page_loop (fuel : nat) (virt : bool) (st : elf_state) (pgsz addr done : N) (acc : bytes)
@@ -218,25 +246,10 @@ Section Reader.
         | (None, st) => (Ok (acc ++ zeros remain), st)
         | (Some pls, st) =>
             let loadaddr := seg_addr virt pls in
-            (* if (loadaddr > addr) zero-fill up to the segment *)
-            let gap := if addr <? loadaddr then wsub loadaddr addr else 0 in
-            let acc := acc ++ zeros gap in
-            let done := done + gap in
-            let addr := if addr <? loadaddr then loadaddr else addr in
-            let pos := wsub (wadd (ls_off pls) addr) loadaddr in
-            (* file-backed part *)
-            let '(acc, done, addr) :=
-              if addr <? wadd loadaddr (ls_filesz pls) then
-                let size := N.min (pgsz - done) (wsub (wadd loadaddr (ls_filesz pls)) addr) in
-                (acc ++ rd 0 pos size, done + size, wadd addr size)
-              else (acc, done, addr) in
-            (* rest of the segment's memory range *)
-            let '(acc, done, addr) :=
-              if done <? pgsz then
-                let size := N.min (pgsz - done) (wsub (wadd loadaddr (ls_memsz pls)) addr) in
-                (acc ++ zeros size, done + size, wadd addr size)
-              else (acc, done, addr) in
-            read_page_loop k virt st pgsz addr done acc
+            match stage_mem pgsz pls loadaddr
+                    (stage_file pgsz pls loadaddr (stage_gap loadaddr (acc, done, addr))) with
+            | (acc, done, addr) => read_page_loop k virt st pgsz addr done acc
+            end
         end
     end.
 
